@@ -191,6 +191,10 @@ def c03(ck):
                       "whitespace = space, tab, CR, LF as the property states"]
     ck.replay_stage("templates", "MC_C03", "MC_C03_quick.cfg" if ck.tier == "quick" else "MC_C03_thorough.cfg",
                     tlc_workers=8 if ck.tier == "quick" else 12, timeout=3400)
+    # raw / comment through the element scan and the block protocol (LiquidParse): end-tag look-alikes with arguments,
+    # trimming end tags, text swallowed by an inner "-%}", block openers and invalid liquid inside comments
+    ck.replay_stage("raw-comment-from-text", "MC_Lex", "MC_Lex_raw_quick.cfg" if ck.tier == "quick" else "MC_Lex_raw_thorough.cfg",
+                    tlc_workers=8 if ck.tier == "quick" else 12, timeout=3400)
 
 
 def deep_random(ck, walks):
